@@ -21,3 +21,24 @@ package stream
 //@ ensures.clean[C14] !dirty ==> unchanged(s.dirtyOffsets)
 //@ ensures.flag s.anyDirtyOffset == old(s.anyDirtyOffset)
 //@ modifies content(s.offsets), content(s.dirtyOffsets), calls(models.Consumer.TrackOffset)
+
+//@ func (*vBucketDiscovery).Get
+//@ props C09 C16
+//@ requires s != nil && s.membership != nil && s.vBucketDiscoveryMetric != nil && 0 <= s.vBucketNumber && s.vBucketNumber <= 65536
+//@ let info = ret(membership.Membership.GetInfo, 0)
+//@ let N = old(s.vBucketNumber)
+//@ let T = info.TotalMembers
+//@ let M = info.MemberNumber
+//@ let dom = 1 <= T && T <= N
+//@ loop 1
+//@   invariant.bounds 0 <= i && i <= s.vBucketNumber && len(vBuckets) == i
+//@   invariant.ident forall j int :: 0 <= j && j < i ==> vBuckets[j] == j
+//@ hint.len len(vBuckets) == N && receivedInfo == info
+//@ ensures.asked[C09] calls(membership.Membership.GetInfo) == 1 && arg(membership.Membership.GetInfo, 0, recv) == old(s.membership)
+//@ ensures.member[C09] dom ==> 1 <= M && M <= T
+//@ ensures.chunk[C09] dom ==> len(result) == chunkLo(N, T, M) - chunkLo(N, T, M-1) && len(result) >= 1
+//@ hint.ids1 dom ==> forall j int :: 0 <= j && j < len(result) ==> result[j] == vBuckets[chunkLo(N, T, M-1) + j] && vBuckets[chunkLo(N, T, M-1) + j] == chunkLo(N, T, M-1) + j
+//@ ensures.ids[C09] dom ==> forall j int :: 0 <= j && j < len(result) ==> result[j] == chunkLo(N, T, M-1) + j
+//@ ensures.metric_members[C16] s.vBucketDiscoveryMetric.TotalMembers == T && s.vBucketDiscoveryMetric.MemberNumber == M
+//@ ensures.metric_range[C16] s.vBucketDiscoveryMetric.VBucketRangeStart == result[0] && s.vBucketDiscoveryMetric.VBucketRangeEnd == result[len(result)-1]
+//@ modifies s.vBucketDiscoveryMetric.TotalMembers, s.vBucketDiscoveryMetric.MemberNumber, s.vBucketDiscoveryMetric.VBucketRangeStart, s.vBucketDiscoveryMetric.VBucketRangeEnd, calls(membership.Membership.GetInfo)
